@@ -89,7 +89,8 @@ def run(tier, seed):
                                  **{k: v for k, v in expect.items() if k in ("size", "alg", "form")}})
                 if mr != ires and not any(b[1] == "Interp.create (files)" for b in ck.broken):
                     ck.broken.append(("corr", "Interp.create (files)", f"{json.dumps(desc, default=str)[:500]}: model {short(mr)} implementation {short(ires)}"))
-                inp = {"description": desc, "files": {p: c.hex() for p, c in files.items()}, "history": f"pass {ck.cov.get('_pass', 0)}: variant {variant} written to the same paths"}
+                inp = {"description": desc, "files": {p: c.hex() for p, c in files.items()}, "history": f"pass {ck.cov.get('_pass', 0)}: variant {variant} written to the same paths",
+                       "pass": ck.cov.get("_pass", 0), "expect": {k: (v.hex() if isinstance(v, (bytes, bytearray)) else v) for k, v in expect.items()}}
                 if ires[0] != "ok":
                     failing.append({"input": inp, "observed": f"create raised {ires[1]}", "expected": "created"})
                     continue
@@ -263,14 +264,30 @@ def replay(path):
     inp = rec["input"]
     if inp is None:
         return run("quick", rec.get("seed", 0))
+    if "algorithm" in inp:
+        import c01
+        return c01.replay(path)
+    if inp.get("pass", 0) > 0:
+        print("the failing create is part of a history (the same paths rewritten between creates in one process): re-running the histories")
+        return run("quick", rec.get("seed", 0))
     for p, c in inp.get("files", {}).items():
         os.makedirs(os.path.dirname(p), exist_ok=True)
         with open(p, "wb") as fh:
             fh.write(bytes.fromhex(c))
     r = interp.run_impl(interp.impl_create, inp["description"])
     print("create ->", short(r))
-    if r[0] == "ok":
+    if r[0] != "ok":
+        print("REPRODUCED: create raised", r[1])
+        return 1
+    if "expect" in inp:
+        expect = {k: (bytes.fromhex(v) if k in ("digest", "content", "child") and isinstance(v, str) else v) for k, v in inp["expect"].items()}
+        why = oracle(expect, r[1], {p: bytes.fromhex(c) for p, c in inp.get("files", {}).items()})
+        if why:
+            print("REPRODUCED:", why)
+            return 1
+    else:
         for why in oracle_envelope(r[1]):
             print("REPRODUCED:", why)
             return 1
+    print("not reproduced on the current tree")
     return 0
